@@ -10,7 +10,7 @@ from .common import call, msg_pool
 
 SELFTESTS = ["fields", "params", "zcash", "h2c", "bls"]
 DECIDING = ["M-bls.verify"]
-SCOPE = ["M-bls.verify", "M-bls.total"]
+SCOPE = ["M-bls.verify"]
 RULE = ("cases = Verify / PopVerify calls on the real ciphersuite classes with a public key whose secret key the harness knows, judged by a monitor "
         "wrapped around the methods with the analytic oracle 'True iff the 96 bytes equal the model's canonical signature sk*H(m) in ZCash "
         "encoding' (BLS signatures are unique), all in pv.model arithmetic. Per base case (suite, sk, m) the candidates are: the canonical "
